@@ -480,3 +480,173 @@ Proof.
     apply str_app_inj_len in E; [|transitivity 2; [apply digit_len|symmetry; apply digit_len]; lia]. destruct E as [E _].
     apply Ha. rewrite <- E. now apply in_map.
 Qed.
+
+(* ================================================================== the commands of one execution *)
+(* An execution is a success exactly when EVERY command succeeded (named or not, first or last) and the return file
+   was produced by one of them (or existed). *)
+Lemma run_cmds_succeed_iff l : forall file,
+  run_cmds file l = OSucceed <-> (forall c, In c l -> cs_code c = None) /\ (file = true \/ exists c, In c l /\ cs_write c = true).
+Proof.
+  induction l as [|c r IH]; intro file; simpl.
+  - destruct file; split.
+    + intros _. split; [intros ? []|now left].
+    + reflexivity.
+    + discriminate.
+    + intros [_ [H|[c [[] _]]]]. discriminate.
+  - destruct (cs_code c) as [k|] eqn:Ec.
+    + split.
+      * destruct (file || cs_write c); discriminate.
+      * intros [H _]. specialize (H c (or_introl eq_refl)). congruence.
+    + rewrite IH. split.
+      * intros [H1 H2]. split.
+        -- intros c' [<-|Hc']; [exact Ec|now apply H1].
+        -- destruct H2 as [H2|[c' [Hc' Hw]]].
+           ++ apply orb_prop in H2. destruct H2 as [H2|H2]; [now left|right; exists c; split; [now left|exact H2]].
+           ++ right. exists c'. split; [now right|exact Hw].
+      * intros [H1 H2]. split.
+        -- intros c' Hc'. apply H1. now right.
+        -- destruct H2 as [->|[c' [[<-|Hc'] Hw]]].
+           ++ now left.
+           ++ left. rewrite Hw. apply orb_true_r.
+           ++ right. now exists c'.
+Qed.
+
+(* a failing command anywhere in the list makes the execution a failure, whatever the commands after it would do *)
+Lemma run_cmds_failing_command file l c : In c l -> cs_code c <> None -> run_cmds file l <> OSucceed.
+Proof.
+  intros Hin Hc H. apply run_cmds_succeed_iff in H. destruct H as [H _]. apply Hc. now apply H.
+Qed.
+
+(* the commands after the first failing one are irrelevant, and so is naming *)
+Lemma run_cmds_stops file a c k b : (forall x, In x a -> cs_code x = None) -> cs_code c = Some k ->
+  forall b', run_cmds file (a ++ c :: b) = run_cmds file (a ++ c :: b').
+Proof.
+  revert file. induction a as [|x a IH]; intros file Ha Hc b'; simpl.
+  - now rewrite Hc.
+  - rewrite (Ha x (or_introl eq_refl)). apply IH; [|exact Hc]. intros y Hy. apply Ha. now right.
+Qed.
+
+Definition unname (c : cstep) : cstep := mk_cs false (cs_write c) (cs_code c).
+Lemma run_cmds_naming_irrelevant l : forall file, run_cmds file (map unname l) = run_cmds file l.
+Proof. induction l as [|c r IH]; intro file; simpl; [reflexivity|]. destruct (cs_code c); [reflexivity|apply IH]. Qed.
+
+(* ---- refinement: run_cmds is what the run_local model of C17 (Model/Job.v) reports for these commands *)
+Section CmdsRunLocal.
+  Variables rf payload : string.
+  Variable hash : jobinput cstep -> string.
+  Notation exec := (step_exec rf payload).
+
+  Definition summary (c : Z) (file : bool) : okind :=
+    match c with
+    | Zpos k => if file then OFailFile k else OFail k
+    | _ => if file then OSucceed else OOmit
+    end.
+
+  Definition cmd_names (cs : list (cstep * option string)) : list string :=
+    flat_map (fun c => match snd c with Some n => [n] | None => [] end) cs.
+  (* the return file is not the capture file of a named command *)
+  Definition rf_free (cs : list (cstep * option string)) : Prop :=
+    forall c n, In c cs -> snd c = Some n -> rf <> n ++ ".out" /\ rf <> n ++ ".err".
+
+  Lemma last_code_cons (s : step cstep) l : l <> [] -> last_code (s :: l) = last_code l.
+  Proof.
+    intro H. destruct (exists_last H) as [l' [x ->]]. unfold last_code. simpl. rewrite rev_unit. reflexivity.
+  Qed.
+
+  Lemma step_file nm c e f : (forall n, nm = Some n -> rf <> n ++ ".out" /\ rf <> n ++ ".err") ->
+    dhas rf (close_caps nm (exec c e (open_caps nm f))) = dhas rf f || cs_write c.
+  Proof.
+    intro H. unfold dhas. rewrite (close_caps_other _ _ _ H). simpl.
+    destruct (cs_write c).
+    - rewrite dget_dset_same. now rewrite orb_true_r.
+    - rewrite (open_caps_other _ _ _ H). now rewrite orb_false_r.
+  Qed.
+
+  Lemma loop_summary e cs : cs <> [] -> rf_free cs -> forall f,
+    exists c, last_code (loop cstep exec e cs f) = Some c /\ (0 <= c)%Z
+              /\ summary c (dhas rf (final_fs f (loop cstep exec e cs f))) = run_cmds (dhas rf f) (map fst cs).
+  Proof.
+    induction cs as [|[c0 nm] r IH]; intros Hne Hfree f; [congruence|].
+    assert (Hnm : forall n, nm = Some n -> rf <> n ++ ".out" /\ rf <> n ++ ".err").
+    { intros n ->. apply (Hfree (c0, Some n) n); [now left|reflexivity]. }
+    pose proof (step_file nm c0 e f Hnm) as Hfile.
+    simpl loop. simpl map. simpl run_cmds. simpl r_code. unfold cs_exit.
+    destruct (cs_code c0) as [k|] eqn:Ec.
+    - exists (Zpos k). split; [unfold last_code; simpl; unfold cs_exit; now rewrite Ec|]. split; [lia|]. simpl. rewrite Hfile. reflexivity.
+    - simpl Z.eqb. cbv iota.
+      destruct r as [|c1 r].
+      + exists 0%Z. split; [unfold last_code; simpl; unfold cs_exit; now rewrite Ec|]. split; [lia|]. simpl. rewrite Hfile. reflexivity.
+      + set (f1 := close_caps nm (exec c0 e (open_caps nm f))) in *.
+        destruct (IH ltac:(discriminate) (fun c n Hc => Hfree c n (or_intror Hc)) f1) as [c [Hl [Hc Hs]]].
+        exists c. split; [|split; [exact Hc|]].
+        * rewrite last_code_cons; [exact Hl|]. apply loop_nonempty. discriminate.
+        * cbn [final_fs st_after]. rewrite Hs, Hfile. reflexivity.
+  Qed.
+
+  Lemma cmd_names_prefix e cs f : exists rest,
+    (names_of (loop cstep exec e cs f) ++ rest)%list = cmd_names cs.
+  Proof.
+    destruct (loop_prefix cstep exec e cs f) as [rest Hrest].
+    exists (cmd_names rest). rewrite <- Hrest at 2. unfold cmd_names. rewrite flat_map_app. f_equal.
+    unfold names_of. generalize (loop cstep exec e cs f). intro l. induction l as [|s l IHl]; simpl; [reflexivity|].
+    now rewrite IHl.
+  Qed.
+
+  (* what jobmap finds in the output file of an execution with commands cs is the summary run_cmds computes:
+     recorded exit code, presence of the return file among the returned files, and exit status 0 iff success *)
+  Theorem run_cmds_refines_run_local base (inp : jobinput cstep) arg n :
+    ji_cmds inp <> [] -> ji_ret inp = Some [rf] -> NoDup (cmd_names (ji_cmds inp)) -> rf_free (ji_cmds inp) ->
+    let k := run_cmds (dhas rf (materialise (ji_files inp))) (map fst (ji_cmds inp)) in
+    exists st out, fst (body cstep exec hash base inp) = Done st out
+                   /\ jo_exitcode out = o_code (out_of arg k n)
+                   /\ dhas rf (jo_files out) = o_file (out_of arg k n)
+                   /\ jo_hash out = hash inp
+                   /\ (st = 0%Z <-> k = OSucceed).
+  Proof.
+    intros Hne Hret Hnd Hfree. cbv zeta.
+    set (f0 := materialise (ji_files inp)). set (e := overlay base (ji_env inp)).
+    set (sts := loop cstep exec e (ji_cmds inp) f0).
+    assert (Hnd' : NoDup (names_of sts)).
+    { destruct (cmd_names_prefix e (ji_cmds inp) f0) as [rest Hrest]. fold sts in Hrest. rewrite <- Hrest in Hnd.
+      now apply nodup_app_elim in Hnd. }
+    assert (Hkeep : forall c e' f x, In x (cap_files cstep (ji_cmds inp)) -> dget x (r_fs (exec c e' f)) = dget x f).
+    { intros c e' f x Hx. simpl. destruct (cs_write c); [|reflexivity].
+      apply dget_dset_other. unfold cap_files in Hx. apply in_flat_map in Hx. destruct Hx as [[c' nm] [Hc' Hx]].
+      simpl in Hx. destruct nm as [m|]; [|destruct Hx].
+      destruct (Hfree (c', Some m) m Hc' eq_refl) as [H1 H2].
+      destruct Hx as [<-|[<-|[]]]; congruence. }
+    destruct (captures_exact cstep exec (cap_files cstep (ji_cmds inp)) Hkeep e (ji_cmds inp) f0 Hnd' (fun x H => H))
+      as [so [se [Hso [Hse _]]]].
+    destruct (loop_summary e (ji_cmds inp) Hne Hfree f0) as [c [Hl [Hc0 Hs]]]. fold sts in Hl, Hs, Hso, Hse.
+    unfold body. cbv zeta. fold f0 e sts. rewrite Hso, Hse, Hl. simpl fst.
+    eexists _, _. split; [reflexivity|]. simpl jo_exitcode. simpl jo_files. simpl jo_hash.
+    unfold requested. rewrite Hret. rewrite <- Hs.
+    set (f := final_fs f0 sts).
+    assert (Hcol : dhas rf (collect f [rf]) = dhas rf f).
+    { unfold dhas. rewrite collect_spec. simpl. now rewrite String.eqb_refl. }
+    assert (Hall : all_present f [rf] = dhas rf f) by (simpl; apply andb_true_r).
+    rewrite Hcol, Hall.
+    destruct c as [|k|k]; [| |lia]; destruct (dhas rf f); simpl; repeat split; intros; try reflexivity; try discriminate.
+  Qed.
+End CmdsRunLocal.
+
+(* ---- with jobmap: an item one of whose commands failed in this run (named or not, last or not, whatever the later
+   commands would have written) is not stored in the destination and is executed again by the next run *)
+Theorem failed_command_not_stored script p st kl nm c :
+  NoDup (map fst (js_src st)) -> NoDup (all_names p st) ->
+  In kl (js_src st) -> In nm (names p kl) -> In nm (runlist p st) ->
+  In c (script nm (cnt st nm)) -> cs_code c <> None ->
+  let st' := jobmap (cmd_outcome script) p st in
+  dget (fst kl) (js_dst st') = None /\ In nm (runlist p st').
+Proof.
+  intros Hk Ha Hin Hnm Hr Hc Hcode. cbv zeta.
+  assert (Hf : failed (cmd_outcome script nm (cnt st nm))).
+  { unfold failed, cmd_outcome. now apply (run_cmds_failing_command false _ c). }
+  assert (Hrun : In nm (runlist p (jobmap (cmd_outcome script) p st))).
+  { apply resume; [exact Hk|exact Ha|]. now split. }
+  split; [|exact Hrun].
+  apply in_runlist in Hrun. destruct Hrun as [kl' (Hin' & Hd' & Hn' & _)].
+  rewrite src_jobmap in Hin'.
+  assert (kl' = kl) by (apply (flat_map_unique (names p) (js_src st) Ha kl' kl nm); assumption).
+  now subst kl'.
+Qed.
